@@ -302,7 +302,7 @@ Qed.
 
 (* ---------------- the two former defects (fixed by a2172c8, 9dbe448), as instances ---------------- *)
 Definition head_request : request :=
-  {| r_https := false; r_xheaders := false; r_remote_ip := t "1.2.3.4"; r_v11 := true; r_method := t "HEAD"; r_uri := t "/";
+  {| r_https := false; r_xheaders := false; r_remote_ip := t "1.2.3.4"; r_trusted := []; r_gai := []; r_v11 := true; r_method := t "HEAD"; r_uri := t "/";
      r_headers := [(t "Host", t " example.com")]; r_body := [] |}.
 Definition hello_app : app_out := {| a_start := Some (t "200 OK", []); a_written := []; a_chunks := [t "hi"] |}.
 
@@ -317,7 +317,7 @@ Proof. eexists. split; [vm_compute; reflexivity|]. split; vm_compute; reflexivit
 
 (* a raw (not percent-encoded) non-ASCII byte in the path arrives unchanged in PATH_INFO *)
 Definition raw_path_request : request :=
-  {| r_https := false; r_xheaders := false; r_remote_ip := t "1.2.3.4"; r_v11 := true; r_method := t "GET"; r_uri := [47; 233];
+  {| r_https := false; r_xheaders := false; r_remote_ip := t "1.2.3.4"; r_trusted := []; r_gai := []; r_v11 := true; r_method := t "GET"; r_uri := [47; 233];
      r_headers := [(t "Host", t " example.com")]; r_body := [] |}.
 Lemma raw_non_ascii_path_example :
   exists a e, accept raw_path_request = Some a /\ environ raw_path_request a = EnvOk e /\ e_path e = [47; 233].
